@@ -1,6 +1,7 @@
 package main
 
 import (
+	"regexp"
 	"flag"
 	"runtime/pprof"
 	"time"
@@ -73,6 +74,7 @@ func cmdVerify(args []string) {
 	verbose := fs.Bool("v", false, "verbose")
 	kinds := fs.String("kinds", "", "only obligations of these kinds (comma separated)")
 	idMatch := fs.String("match", "", "only obligations whose id contains this")
+	trace := fs.Bool("trace", false, "for refuted obligations print the branch decisions of the counterexample")
 	fs.Parse(args)
 	e := mustLoad("/repo", "/verif/spec")
 	var obls []*Obligation
@@ -131,7 +133,39 @@ func cmdVerify(args []string) {
 		if !ok || *verbose {
 			fmt.Printf("%-7s %-8s %-60s %s %.2fs %s\n", map[bool]string{true: "ok", false: "FAIL"}[ok], r.Verdict, o.ID, r.Solver, r.Total, o.Pos)
 		}
+		if !ok && *trace && r.Verdict == "sat" && o.fv != nil {
+			for _, l := range pathTrace(o, r.File, *timeout) {
+				fmt.Println("        " + l)
+			}
+		}
 	}
 	fmt.Printf("%d obligations, %d not discharged\n", len(obls), bad)
 }
 
+
+// pathTrace re-solves a refuted query asking for the value of every branch
+// condition and lists the branches taken, with source positions.
+func pathTrace(o *Obligation, file string, timeout int) []string {
+	b, err := os.ReadFile(file)
+	if err != nil {
+		return nil
+	}
+	q := string(b)
+	re := regexp.MustCompile(`\(define-fun (edge_\d+) \(\) Bool`)
+	var names []string
+	for _, m := range re.FindAllStringSubmatch(q, -1) {
+		names = append(names, m[1])
+	}
+	if len(names) == 0 {
+		return nil
+	}
+	q = strings.Replace(q, "(get-model)", "", 1) + "(get-value (" + strings.Join(names, " ") + "))\n"
+	tf := file + ".trace.smt2"
+	os.WriteFile(tf, []byte(q), 0o644)
+	_, out, _ := runSolver(solvers[0], tf, timeout)
+	var res []string
+	for _, m := range regexp.MustCompile(`\((edge_\d+) true\)`).FindAllStringSubmatch(out, -1) {
+		res = append(res, m[1]+"  "+o.fv.edgePos[m[1]])
+	}
+	return res
+}
